@@ -61,6 +61,9 @@ CHECKS = {
  "C16": dict(engine="enum", technique="bounded-exhaustive enumeration of API scenarios, executed by one program compiled under both feature configurations; transcripts compared byte for byte",
    text="One scenario program is built twice against /repo (protobuf-backed and --no-default-features plain data model) and run over every scenario of a bounded grammar (collector subsets <=2 (thorough 3) of 12 kinds x all combinations of 5 update scripts x 5 registry configurations x re-gather after unregister); the bit-exact dumps of gather() and the TextEncoder output must be identical.",
    note="scenario grammar fixed; only API common to both models is used", ref="6 C16"),
+ "C20": dict(engine="enum", technique="bounded-exhaustive enumeration over generated programs: every macro arm x trailing comma written out as a call site, compiled against /repo and looped over a finite argument pool, compared with the explicit constructor",
+   text="A generated crate (regenerated and rebuilt on every run) contains every arm of labels!/opts!/histogram_opts!/register_*!/register_*_with_registry! with and without trailing comma (114 call sites); each is run over 216 argument cases x 3 target registries: descriptor and buckets equal the explicit constructor's, the updated handle's sample appears in exactly the named registry, a second identical invocation evaluates to Err.",
+   note="argument pools fixed; constructor panics inside the macros (invalid options) not judged", ref="6 C20"),
 }
 
 NOT_YET = "check not built yet in this round; planned per DESIGN.md section 6"
